@@ -1,7 +1,7 @@
-\* sampled (-simulate): histories of 6 next/send("a")/send("b") calls on 3 live generators, all 14 templates
+\* sampled (-simulate): histories of 6 next/send("a")/send("b") calls on 2 live generators, all 14 templates
 SPECIFICATION SpecCalls
 CONSTANTS
-  NTop = 3
+  NTop = 2
   MaxOps = 6
   NB = 14
   MaxMicro = 80
